@@ -48,7 +48,9 @@ inline Fp sqrt(Fp a) { return fpow(a, (Fp::P + 1) / 4); }
 // circle, so that cos^2 + sin^2 = 1 holds exactly and the axis-angle / rotateE code paths can be executed over the field
 inline Fp cos(Fp x) { return (Fp(1) - x * x) / (Fp(1) + x * x); }
 inline Fp sin(Fp x) { return (Fp(2) * x) / (Fp(1) + x * x); }
-inline Fp acos(Fp w) { return sqrt((Fp(1) - w) / (Fp(1) + w)); }      // a square root whenever one exists (P = 3 mod 4)
+inline Fp acos(Fp w) { return sqrt((Fp(1) - w) / (Fp(1) + w)); }
+// tangent of the half angle of the point (x, y): cos(atan2(y, x)) = x/r, sin(atan2(y, x)) = y/r whenever r = sqrt(x^2+y^2) exists
+inline Fp atan2(Fp y, Fp x) { return y / (sqrt(x * x + y * y) + x); }      // a square root whenever one exists (P = 3 mod 4)
 
 #include <asl/Matrix4.h>
 #include <asl/Matrix3.h>
@@ -329,9 +331,14 @@ static const char* ORDERS[12] = { "XYZ", "XZY", "YXZ", "YZX", "ZXY", "ZYX", "XYX
 
 // all conversions starting from one rotation matrix R (reference Rref): quaternion, axis-angle, 24 Euler conventions
 template<class T>
-static std::string rotAll(const Matrix4_<T>& R, const R3& Rref, const char* origin)
+static std::string rotAll(const Matrix4_<T>& R, const R3& Rref, const char* origin, const char* relEuler)
 {
-	LD eps = Eps<T>::v(), tight = 64 * eps, loose = 8 * sqrtl(eps);
+	// tight: c*eps for the well-conditioned conversions (quaternion <-> matrix <-> axis-angle, any angle incl. tiny ones).
+	// Euler angles: a matrix composed by rotateE has its small elements to full RELATIVE precision, so an accurate
+	// extraction with the same axis order loses only c*eps at any distance from gimbal lock (relEuler = that order); a matrix coming from a quaternion has
+	// absolute noise ~eps in them, and the extraction is then only accurate to eps * cond, cond = 1/cy, where cy is the
+	// cosine (resp. sine) of the middle angle (below 4 eps the locked formulas must be in use and are accurate to c*eps).
+	LD eps = Eps<T>::v(), tight = 64 * eps;
 	std::string tn = std::string(Eps<T>::n()) + " " + origin + " ";
 	LD e = rdist(R, Rref);
 	if (!(e <= tight)) return failmsg((tn + "matrix-vs-reference").c_str(), e, tight);
@@ -345,9 +352,9 @@ static std::string rotAll(const Matrix4_<T>& R, const R3& Rref, const char* orig
 	Vec3_<T> v = q.axisAngle();
 	if (!((LD)v.length() <= 3.14159265358979323846L * (1 + 8 * eps))) return failmsg((tn + "axisAngle length > pi").c_str(), (LD)v.length(), 3.14159265358979323846L);
 	e = rdist(Quaternion_<T>::fromAxisAngle(v).matrix(), Rref);
-	if (!(e <= loose)) return failmsg((tn + "fromAxisAngle(q.axisAngle())").c_str(), e, loose);
+	if (!(e <= tight)) return failmsg((tn + "fromAxisAngle(q.axisAngle())").c_str(), e, tight);
 	e = rdist(Matrix4_<T>::rotate(R.axisAngle()), Rref);
-	if (!(e <= loose)) return failmsg((tn + "rotate(R.axisAngle())").c_str(), e, loose);
+	if (!(e <= tight)) return failmsg((tn + "rotate(R.axisAngle())").c_str(), e, tight);
 	// Euler angles, 12 axis orders, moving and fixed frames
 	for (int o = 0; o < 12; o++) for (int fixed = 0; fixed < 2; fixed++) {
 		char name[8];
@@ -356,6 +363,9 @@ static std::string rotAll(const Matrix4_<T>& R, const R3& Rref, const char* orig
 		if (!(a.x == a.x && a.y == a.y && a.z == a.z)) return "fail " + tn + "eulerAngles(" + name + ") is NaN";
 		// independent composition in long double: moving axes R[a0](x) R[a1](y) R[a2](z); fixed axes = reversed product
 		int i0 = name[0] - 'X', i1 = name[1] - 'X', i2 = name[2] - 'X';
+		int b0 = fixed ? i2 : i0, b1 = i1, b2 = fixed ? i0 : i2, bk = 3 - b0 - b1;
+		LD cy = b0 != b2 ? hypotl(Rref.m[b0][b0], Rref.m[b0][b1]) : hypotl(Rref.m[b1][b0], Rref.m[bk][b0]);
+		LD loose = ((relEuler && !strcmp(relEuler, name)) || cy < 4 * eps) ? tight : 16 * eps * std::max((LD)1, 1 / cy);
 		R3 ref = fixed ? ldmul(ldmul(ldaxis(i2, a.z), ldaxis(i1, a.y)), ldaxis(i0, a.x))
 		               : ldmul(ldmul(ldaxis(i0, a.x), ldaxis(i1, a.y)), ldaxis(i2, a.z));
 		LD e1 = 0;
@@ -375,7 +385,7 @@ static std::string frot(const std::vector<double>& v)
 	w /= n; x /= n; y /= n; z /= n;
 	Quaternion_<T> q((T)w, (T)x, (T)y, (T)z);
 	R3 ref = ldquat(w, x, y, z);
-	return rotAll<T>(q.matrix(), ref, "quat");
+	return rotAll<T>(q.matrix(), ref, "quat", 0);
 }
 
 template<class T>
@@ -387,7 +397,7 @@ static std::string feuler(const std::string& order, const std::vector<double>& v
 	R3 ref = fixed ? ldmul(ldmul(ldaxis(i2, (LD)a.z), ldaxis(i1, (LD)a.y)), ldaxis(i0, (LD)a.x))
 	               : ldmul(ldmul(ldaxis(i0, (LD)a.x), ldaxis(i1, (LD)a.y)), ldaxis(i2, (LD)a.z));
 	Matrix4_<T> R = Matrix4_<T>::rotateE(a, order.c_str());
-	return rotAll<T>(R, ref, ("euler " + order).c_str());
+	return rotAll<T>(R, ref, ("euler " + order).c_str(), order.c_str());
 }
 
 template<class T>
@@ -400,13 +410,13 @@ static std::string faxis(const std::vector<double>& v)
 	if (ang == 0) ref = ldquat(1, 0, 0, 0);
 	else ref = ldquat(cosl(ang / 2), sinl(ang / 2) * ax / ang, sinl(ang / 2) * ay / ang, sinl(ang / 2) * az / ang);
 	Matrix4_<T> R = Matrix4_<T>::rotate(a);
-	std::string s = rotAll<T>(R, ref, "axis-angle");
+	std::string s = rotAll<T>(R, ref, "axis-angle", 0);
 	if (s != "ok") return s;
-	LD eps = Eps<T>::v(), loose = 8 * sqrtl(eps);
-	if (ang < 3.14159265358979323846L - loose) {
+	LD eps = Eps<T>::v(), loose = 64 * eps * std::max((LD)1, ang);
+	if (ang < 3.14159265358979323846L - 1e-3L) {   // at pi the vectors v and -v describe the same rotation
 		Vec3_<T> b = R.axisAngle();
 		LD e = std::max(fabsl((LD)b.x - ax), std::max(fabsl((LD)b.y - ay), fabsl((LD)b.z - az)));
-		if (!(e <= loose * (1 + 1 / (3.14159265358979323846L - ang) * 0))) return failmsg((std::string(Eps<T>::n()) + " axisAngle(rotate(v)) - v").c_str(), e, loose);
+		if (!(e <= loose)) return failmsg((std::string(Eps<T>::n()) + " axisAngle(rotate(v)) - v").c_str(), e, loose);
 	}
 	return "ok";
 }
